@@ -46,6 +46,11 @@ def run(ctx, variants, ref_variant, n_quick, n_thorough, what):
                              "trace.ndjson": "\n".join(json.dumps(r) for r in ref[i]) + "\n"},
                       signature="%s:conformance:%s" % (ctx.prop, vlib.canon_hash(progs[i])), detail=json.dumps(K.prog_brief(progs[i])))
     bad = {x["prog"] for x in rej0}
+    # an ill-formed program that makes the process die inside an actor (xbt_assert of the kernel, or a signal while it formats its
+    # message) is not compared: under a parallel factory the other actors get more or less far before the process dies
+    crashing = {i for i, t in enumerate(ref) if any(r.get("e") == "end" and r.get("how") in ("signal", "abort") for r in t)}
+    ctx.cov["programs_ending_in_a_crash_not_compared"] = len(crashing)
+    bad |= crashing
     ctx.cov["variants"] = [v[0] for v in variants]
     ctx.cov["comparisons"] = 0
     for name, cfg, env, wrap in variants:
